@@ -34,6 +34,14 @@ func (e StdEng) argmaxDenseTensor(t DenseTensor, axis int) (retVal *Dense, err e
 				dataA = t.hdr()
 			}
 		}
+		// ... and so must a column-major tensor: its storage order is not the order of its logical elements
+		if dt, ok := t.(*Dense); ok && dt.o.IsColMajor() && !dt.IsMasked() {
+			rm := recycledDense(dt.t, dt.shape.Clone(), WithEngine(dt.e))
+			copyDenseIter(rm, dt, nil, nil)
+			defer ReturnTensor(rm)
+			t = rm
+			dataA = t.hdr()
+		}
 		var index int
 		if mt, ok := t.(MaskedTensor); ok && mt.IsMasked() {
 			if index = e.E.ArgmaxFlatMasked(typ, dataA, mt.Mask()); index == -1 {
@@ -128,6 +136,14 @@ func (e StdEng) argminDenseTensor(t DenseTensor, axis int) (retVal *Dense, err e
 				t = mt
 				dataA = t.hdr()
 			}
+		}
+		// ... and so must a column-major tensor: its storage order is not the order of its logical elements
+		if dt, ok := t.(*Dense); ok && dt.o.IsColMajor() && !dt.IsMasked() {
+			rm := recycledDense(dt.t, dt.shape.Clone(), WithEngine(dt.e))
+			copyDenseIter(rm, dt, nil, nil)
+			defer ReturnTensor(rm)
+			t = rm
+			dataA = t.hdr()
 		}
 		var index int
 		if mt, ok := t.(MaskedTensor); ok && mt.IsMasked() {
